@@ -2,6 +2,8 @@
 
 package reftable
 
+import "io/ioutil"
+
 // C14: every emitted table is well-formed as judged by the independent
 // decoder of spec_decode.go, and decoding by the format rules alone yields
 // the records given to the writer.
@@ -176,5 +178,43 @@ func Harness_C14_compaction() {
 	specCompare(data, cfgExact, wantRefs, wantLogs)
 	t := specDecodeTable(data)
 	VerifAssert(t.min == uint64(first+1) && t.max == uint64(last+1), "compacted-table-limits")
+	VerifCover("done")
+}
+
+// Harness_C14_stack: every table file a stack leaves behind (plain additions, auto-compacted and fully compacted tables) is well-formed.
+// bounds: sequential: 3 additions (the last with auto-compaction) and a CompactAll on the (modelled) filesystem, hash sha1 or sha256; every *.ref file in the directory afterwards is decoded by the independent decoder
+// covers: done
+func Harness_C14_stack() {
+	cfg := stackCfg(VerifChoose(2))
+	dir := VerifTempDir()
+	st := mustOpen(dir, cfg, "open")
+	if st == nil {
+		return
+	}
+	VerifAssert(addTxnVal(st, 1, VerifU8(), true) == nil, "add")
+	VerifAssert(addTxnVal(st, 2, VerifU8(), true) == nil, "add")
+	stage := VerifChoose(3)
+	if stage >= 1 {
+		st.disableAutoCompact = false
+		VerifAssert(addTxnVal(st, 3, VerifU8(), true) == nil, "add-auto")
+	}
+	if stage >= 2 {
+		VerifAssert(addTxn(st, 4, false) == nil, "add")
+		VerifAssert(st.CompactAll(nil) == nil, "compactall")
+	}
+	n := 0
+	for _, nm := range VerifDirNames() {
+		if len(nm) < 4 || nm[len(nm)-4:] != ".ref" {
+			continue
+		}
+		data, err := ioutil.ReadFile(dir + "/" + nm)
+		VerifAssert(err == nil, "read-table-file")
+		t := specDecodeTable(data)
+		VerifAssert(t.ok, "wf-decodes")
+		refs, logs := specCheckStructure(&t)
+		VerifAssert(len(refs)+len(logs) > 0, "table-file-not-empty")
+		n++
+	}
+	VerifAssert(n == len(st.stack), "one-file-per-listed-table")
 	VerifCover("done")
 }
